@@ -72,6 +72,113 @@ def identity_oracle(ctx):
     _run(ctx, "identity", 1500, 40000, make, identity_check)
 
 
+# ---------------- C01 / C06: the same path object, evaluated again after the document was edited ----------------
+
+def _containers(v, acc):
+    if isinstance(v, (dict, list)):
+        acc.append(v)
+        for x in (v.values() if isinstance(v, dict) else v):
+            _containers(x, acc)
+    return acc
+
+
+def _apply_edit(doc, ed):
+    cs = _containers(doc, [])
+    if not cs:
+        return              # a scalar document: nothing to edit in place
+    c = cs[ed["at"] % len(cs)]
+    k = ed["op"]
+    if isinstance(c, dict):
+        keys = list(c.keys())
+        if k == "del" and keys:
+            del c[keys[ed["i"] % len(keys)]]
+        elif k == "replace" and keys:
+            c[keys[ed["i"] % len(keys)]] = dec(ed["v"])
+        elif k == "clear":
+            c.clear()
+        else:
+            c[ed["key"]] = dec(ed["v"])
+    else:
+        if k == "del" and c:
+            del c[ed["i"] % len(c)]
+        elif k == "replace" and c:
+            c[ed["i"] % len(c)] = dec(ed["v"])
+        elif k == "clear":
+            del c[:]
+        elif k == "insert":
+            c.insert(0, dec(ed["v"]))
+        else:
+            c.append(dec(ed["v"]))
+
+
+def requery_check(sc):
+    """a path is a value: whatever it was evaluated on before, evaluating it on the document as
+    it is now gives what a freshly written copy of the path gives"""
+    doc = dec(sc["doc"])
+    expr = Builder([]).steps(sc["path"])
+
+    def run(e):
+        try:
+            return [(m.path_as_str, id(m.data) if isinstance(m.data, (dict, list)) else repr(m.data))
+                    for m in itertools.islice(find_matches(e, doc), 300)]
+        except TreepathException as x:
+            return ("exc", tuple(exc_chain(x)))
+
+    first = run(expr)
+    nontrivial = bool(first) and not isinstance(first, tuple)
+    for rnd, ed in enumerate(sc["edits"]):
+        _apply_edit(doc, ed)
+        again = run(expr)
+        fresh = run(Builder([]).steps(sc["path"]))
+        if again != fresh:
+            return (f"after edit #{rnd} {json.dumps(ed)} the path object that was used before selects "
+                    f"{str(again)[:200]} but a freshly built copy selects {str(fresh)[:200]}"), True
+    return None, nontrivial
+
+
+def requery_oracle(ctx):
+    def make(rng):
+        sc = gen.gen_query(rng, rng.choice(["child", "child", "all", "rec"]), pred_profile="has", api="find_matches", with_src=False)
+        edits = []
+        for _ in range(rng.randint(1, 3)):
+            edits.append({"at": rng.randrange(64), "op": rng.choice(["del", "replace", "add", "add", "clear", "insert"]),
+                          "i": rng.randrange(8), "key": rng.choice(gen.KEYS), "v": gen.enc(rng.choice(gen.SCALARS + [[], {}, [1], {"a": 1}]))})
+        return {"doc": sc["doc"], "path": sc["path"], "edits": edits}
+    _run(ctx, "requery", 800, 30000, make, requery_check)
+
+
+# ---------------- C02 / C07: iter() called again on a partly consumed iterator ----------------
+
+def reiter_check(sc):
+    """what `iter(it)` does to a live iterator is not part of any property (the library starts
+    the search over; the iterator protocol would allow it to just continue) — but the results
+    that follow must be one or the other: the complete answer again, or the part of it not
+    delivered yet.  Anything else loses or repeats nodes."""
+    doc = dec(sc["doc"])
+    full = [_val(m) for m in itertools.islice(find_matches(Builder([]).steps(sc["path"]), doc), 400)]
+    it = find_matches(Builder([]).steps(sc["path"]), doc)
+    head = []
+    for _ in range(sc["k"]):
+        try:
+            head.append(_val(next(it)))
+        except StopIteration:
+            break
+    if head != full[:len(head)]:
+        return None, False       # (laziness / prefix is the business of the correspondence)
+    again = [_val(m) for m in itertools.islice(iter(it), 400)]
+    if again != full and again != full[len(head):]:
+        return (f"after {len(head)} results and iter() again the iterator yields {str(again)[:160]}: neither the complete "
+                f"answer {str(full)[:160]} nor its remainder"), True
+    return None, len(full) > len(head) > 0
+
+
+def reiter_oracle(ctx):
+    def make(rng):
+        sc = gen.gen_query(rng, rng.choice(["rec", "all", "child"]), pred_profile="has", api="find_matches", with_src=False)
+        return {"doc": sc["doc"], "path": sc["path"], "k": rng.randint(1, 6)}
+    _run(ctx, "reiter", 600, 20000, make, reiter_check)
+
+
 # ---------------- C07: interleavings and threads ----------------
 
 def _drain(it, cap=400):
@@ -446,7 +553,7 @@ def cyclic_oracle(ctx):
     ctx.support["cyclic"] = dict(cases=len(picks), nontrivial=len(picks), failures=bad)
 
 
-CHECKS = {"identity": identity_check, "interleave": interleave_check, "threads": thread_check,
+CHECKS = {"identity": identity_check, "requery": requery_check, "reiter": reiter_check, "interleave": interleave_check, "threads": thread_check,
           "match_truth": match_truth_check, "concat": concat_check, "untraced": untraced_check,
           "cyclic": cyclic_check}
 
